@@ -6,7 +6,7 @@ qm_c04 — driver for M-Sys (C04, C03). Requests (one S-expression line each):
   (init <n> <req> (<script> …))      start `Sys.init n prog req`;        → snapshot
        script = (<act> …); act = (send r tag seq) | (spawn fn (r …)) | (select (<src> …)) | fail
        src = (proc r) | (recv any) | (recv tag k) | (timeout ms)
-  (mode current|replace-answers|mark-active-on-empty)   which `Rules` the step uses (default current) → ok
+  (mode current|replace-answers|mark-active-on-empty|wake-only-on-empty-answer)   which `Rules` the step uses (default current) → ok
   (env (<vis> …))                     `Choice.env`   (a `*` entry = everything)            → snapshot
   (worker i vis fuel (ordQ…) (ordE…)) `Choice.worker` (`*` for vis = everything)           → snapshot
   (tick ms)                                                                                → snapshot
@@ -144,6 +144,7 @@ def step (st : St) (req : List Sx) : St × String :=
   | [.list [.atom "mode", .atom "current"]] => ({ st with rules := Rules.current }, "ok")
   | [.list [.atom "mode", .atom "replace-answers"]] => ({ st with rules := Rules.replaceAnswers }, "ok")
   | [.list [.atom "mode", .atom "mark-active-on-empty"]] => ({ st with rules := Rules.markActiveOnEmpty }, "ok")
+  | [.list [.atom "mode", .atom "wake-only-on-empty-answer"]] => ({ st with rules := Rules.wakeOnlyOnEmptyAnswer }, "ok")
   | [.list [.atom "ghost"]] =>
     match st.sys with
     | some s => (st, ghost s)
